@@ -46,13 +46,27 @@ impl ConvertibleIn<DimNameState> for DimVar {
         let redim_of_shared_in_parent = extra.dim_context == DimContext::Redim
             && ctx.is_in_subprogram()
             && ctx.names.is_only_shared_in_parent(&bare_name);
-        let (var_type, redim_info) = if extra.dim_context == DimContext::Redim {
+        let is_redim = extra.dim_context == DimContext::Redim;
+        let (var_type, redim_info) = if is_redim {
             on_redim_type(var_type, &bare_name, ctx, extra)?
         } else {
             let var_type = on_dim_type(var_type, &bare_name, ctx, extra)?;
             (var_type, None)
         };
         if !redim_of_shared_in_parent {
+            // REDIM of an array that an earlier REDIM SHARED of this scope declared:
+            // the array stays SHARED
+            let shared = shared
+                || (is_redim
+                    && ctx
+                        .names
+                        .find_name_or_shared_in_parent(&bare_name)
+                        .iter()
+                        .any(|(_, variable_info)| {
+                            variable_info.shared
+                                && variable_info.redim_info.is_some()
+                                && variable_info.expression_type == var_type.expression_type()
+                        }));
             ctx.names
                 .insert(bare_name.clone(), &var_type, shared, redim_info);
         }
